@@ -82,6 +82,17 @@ type c03Scenario struct {
 	Procs      int                     `json:"gomaxprocs"`
 	WelcomeNew bool                    `json:"welcome_new_nick"`
 	Cycles     int                     `json:"cycles"` // the same client runs the session again after reconnecting (0/1 = once)
+	// the application lowers Config().Timeout on the live client to this many milliseconds (0: leaves the default)
+	TimeoutMS int `json:"timeout_ms"`
+}
+
+// c03Panic is what a handler of kind 3 panics with; the application's Config.Recover callback does some
+// work of its own (K yields / microseconds, as drawn) before the invocation is over.
+type c03Panic struct {
+	seq  int
+	name string
+	log  *hLog
+	k    int
 }
 
 // message verbs, a numeric, an unknown verb, and verbs that also have built-in internal handlers
@@ -111,6 +122,10 @@ func genC03(t *rapid.T) *c03Scenario {
 		k := rapid.IntRange(1, 4).Draw(t, "nhandlers")
 		for i := 0; i < k; i++ {
 			h := c03Handler{Kind: rapid.IntRange(0, 2).Draw(t, "hkind")}
+			if rapid.IntRange(0, 7).Draw(t, "panics") == 0 {
+				h.Kind = 3
+				h.K = rapid.SampledFrom([]int{0, 50, 500}).Draw(t, "recover_us")
+			}
 			switch h.Kind {
 			case 1:
 				h.K = rapid.IntRange(1, 20).Draw(t, "yields")
@@ -137,6 +152,7 @@ func genC03(t *rapid.T) *c03Scenario {
 	sc.Procs = rapid.SampledFrom([]int{1, 2, 4, 16}).Draw(t, "gomaxprocs")
 	sc.WelcomeNew = rapid.Bool().Draw(t, "welcome_new")
 	sc.Cycles = rapid.SampledFrom([]int{1, 1, 2}).Draw(t, "cycles")
+	sc.TimeoutMS = rapid.SampledFrom([]int{0, 0, 1, 3}).Draw(t, "timeout_ms")
 	return sc
 }
 
@@ -182,9 +198,24 @@ func runC03(sc *c03Scenario) *Violation {
 				s := seqOf(l)
 				log := curLog.Load()
 				log.add(true, s, name, "")
+				if h.Kind == 3 {
+					panic(c03Panic{seq: s, name: name, log: log, k: h.K})
+				}
 				behave(h.Kind, h.K)
 				log.add(false, s, name, "")
 			})
+		}
+	}
+	// the application's own panic recovery, installed on the existing client: the invocation of a
+	// panicking handler is over when this callback returns
+	tc.C.Config().Recover = func(c *client.Conn, l *client.Line) {
+		if e := recover(); e != nil {
+			if p, ok := e.(c03Panic); ok {
+				behave(2, p.k)
+				p.log.add(false, p.seq, p.name, "recovered")
+				return
+			}
+			panic(e)
 		}
 	}
 	wseq := -1
@@ -230,6 +261,9 @@ func runC03(sc *c03Scenario) *Violation {
 func runC03Cycle(sc *c03Scenario, tc *testClient, curLog *atomic.Pointer[hLog], discDone chan struct{}, welcomeNick string, wseq int, meInConnected *atomic.Value) *Violation {
 	if err := tc.connect(); err != nil {
 		return violationf("C03", "connect: %v", err)
+	}
+	if sc.TimeoutMS > 0 {
+		tc.C.Config().Timeout = time.Duration(sc.TimeoutMS) * time.Millisecond
 	}
 	log := curLog.Load()
 	conn := tc.conn()
@@ -394,6 +428,9 @@ func (sc *c03Scenario) classes() (cls []string, nontrivial bool) {
 			if h.Kind == 2 {
 				cls = append(cls, "slow_handler")
 			}
+			if h.Kind == 3 {
+				cls = append(cls, "panicking_handler")
+			}
 		}
 	}
 	if sc.LongAt >= 0 {
@@ -404,6 +441,9 @@ func (sc *c03Scenario) classes() (cls []string, nontrivial bool) {
 		seg = "seg=one_read"
 	} else if sc.Cuts[0] == -1 {
 		seg = "seg=bytewise"
+	}
+	if sc.TimeoutMS > 0 {
+		cls = append(cls, "runtime_timeout")
 	}
 	cls = append(cls, seg, "cause="+sc.Cause, fmt.Sprintf("gomaxprocs=%d", sc.Procs))
 	return cls, len(sc.Verbs) >= 2 && multi
